@@ -204,7 +204,7 @@ func prelude() string {
 	sb.WriteString("(set-option :produce-models true)\n(set-logic ALL)\n")
 	sb.WriteString("(declare-datatypes ((Slice 0)) (((mk_slice (s_arr Int) (s_off Int) (s_len Int) (s_cap Int)))))\n")
 	sb.WriteString("(declare-fun slen (Int) Int)\n(declare-fun sat (Int Int) Int)\n")
-	sb.WriteString("(declare-fun dyntype (Int) Int)\n")
+	sb.WriteString("(declare-fun dyntype (Int) Int)\n(declare-fun implErr (Int) Bool)\n")
 	sb.WriteString("(declare-fun band (Int Int) Int)\n(declare-fun bor (Int Int) Int)\n(declare-fun bxor (Int Int) Int)\n")
 	sb.WriteString("(declare-fun ea (Int Int) Int)\n")
 	sb.WriteString("(define-fun tdiv ((a Int) (b Int)) Int (ite (>= a 0) (ite (> b 0) (div a b) (- (div a (- b)))) (ite (> b 0) (- (div (- a) b)) (div (- a) (- b)))))\n")
@@ -375,6 +375,10 @@ func intBits(t types.Type) (bits int, signed bool, ok bool) {
 func (e *Engine) rangeOf(term string, t types.Type) string {
 	if lo, hi, ok := intRange(t); ok {
 		return "(and (<= " + lo + " " + term + ") (<= " + term + " " + hi + "))"
+	}
+	if types.Identical(t, types.Universe.Lookup("error").Type()) {
+		// the dynamic type of a non-nil error value implements error
+		return "(or (= " + term + " 0) (implErr (dyntype " + term + ")))"
 	}
 	switch u := t.Underlying().(type) {
 	case *types.Slice:
